@@ -72,7 +72,7 @@ func c01LineTerminators(p *Prog) *RuleResult {
 			}
 			// string-set tests among the controlling conditions
 			for _, ifi := range controlDepIfs(b) {
-				backSlice(ifi.Cond, func(v ssa.Value) bool {
+				sliceCond(ifi.Cond, func(v ssa.Value) bool {
 					if call, ok := v.(*ssa.Call); ok {
 						n := calleeFullName(call)
 						if n == "strings.ContainsAny" || n == "strings.IndexAny" || n == "strings.ContainsRune" || n == "strings.IndexRune" {
